@@ -9,6 +9,10 @@ use byteorder::BigEndian;
 use std::collections::HashMap;
 use std::net::SocketAddr;
 
+/// Size of the receive buffer: servers fill the response packet up to 1400 bytes, anything past
+/// the size given to `receive` is dropped.
+const PACKET_SIZE: usize = 2048;
+
 struct GameSpy2 {
     socket: UdpSocket,
     retry_count: usize,
@@ -97,7 +101,7 @@ impl GameSpy2 {
         self.socket
             .send(&[0xFE, 0xFD, 0x00, 0x00, 0x00, 0x00, 0x01, 0xFF, 0xFF, 0xFF])?;
 
-        let received = self.socket.receive(None)?;
+        let received = self.socket.receive(Some(PACKET_SIZE))?;
 
         let mut buf = Buffer::<BigEndian>::new(&received);
         if buf.read::<u8>()? != 0 || buf.read::<u32>()? != 1 {
